@@ -167,19 +167,80 @@ def judge(r, want_exc, pre_files) -> list:
     return probs
 
 
+# otherwise-valid option sets in force next to the violated constraint: a violation must be refused whatever else is configured
+CONTEXTS = [
+    {},
+    {"enable_custom_operations": True},
+    {"async_client": False, "convert_to_snake_case": False},
+    {"opentelemetry_client": True, "include_all_inputs": False, "include_all_enums": False},
+    {"plugins": ["ariadne_codegen.contrib.shorter_results.ShorterResultsPlugin"], "include_comments": "stable"},
+    {"enable_custom_operations": True, "async_client": False, "files_to_include": ["base.py"]},
+]
+
+
+def _config_violation(v, pre, c: int) -> bool:
+    k = pick(v, len(VIOLATIONS))
+    p = pick(pre, 3)
+    name, change, want = VIOLATIONS[k]
+    if isinstance(change, dict) and "target_package_path" in change:
+        p = 0  # the target location itself is the invalid part: nothing can pre-exist there
+    ctx = CONTEXTS[c]
+    if name == "queries_path_not_given" and ctx.get("enable_custom_operations"):
+        return True  # documented: queries_path is optional with custom operations, so this is no violation
+    with NoTracing():
+        with opened_auditwall():
+            spec = VIOLATIONS[k]
+            if ctx and isinstance(change, dict):
+                merged = dict(ctx)
+                merged.update(change)
+                spec = (name, merged, want)
+            elif ctx:
+                return True  # file-content violations are explored in the plain context only
+            r = run_violation(spec, p)
+            probs = judge(r, want, r.get("pre"))
+    return not probs
+
+
 def check_config_violations(v: int, pre: int) -> bool:
     """
     post: _
     """
-    k = pick(v, len(VIOLATIONS))
-    p = pick(pre, 3)
-    if isinstance(VIOLATIONS[k][1], dict) and "target_package_path" in VIOLATIONS[k][1]:
-        p = 0  # the target location itself is the invalid part: nothing can pre-exist there
-    with NoTracing():
-        with opened_auditwall():
-            r = run_violation(VIOLATIONS[k], p)
-            probs = judge(r, VIOLATIONS[k][2], r.get("pre"))
-    return not probs
+    return _config_violation(v, pre, 0)
+
+
+def check_config_violations_custom_ops(v: int, pre: int) -> bool:
+    """
+    post: _
+    """
+    return _config_violation(v, pre, 1)
+
+
+def check_config_violations_sync_plain(v: int, pre: int) -> bool:
+    """
+    post: _
+    """
+    return _config_violation(v, pre, 2)
+
+
+def check_config_violations_otel_pruned(v: int, pre: int) -> bool:
+    """
+    post: _
+    """
+    return _config_violation(v, pre, 3)
+
+
+def check_config_violations_plugin(v: int, pre: int) -> bool:
+    """
+    post: _
+    """
+    return _config_violation(v, pre, 4)
+
+
+def check_config_violations_custom_ops_sync(v: int, pre: int) -> bool:
+    """
+    post: _
+    """
+    return _config_violation(v, pre, 5)
 
 
 def check_invalid_operations(i: int, pre: int) -> bool:
